@@ -120,9 +120,18 @@ def make_env(shape, variant, rng):
     return env
 
 
+_SHARED = []
+
+
 def call_impl(mode, shape, env):
     from pytezos.crypto import hash as H
     lists = [[ref.b58check('o', env[('op', j, t)]) for t in range(1, n + 1)] for j, n in enumerate(shape, 1)]
+    # the caller's list objects are reused from call to call and edited in place (a pool being filled): the hash is a function of the contents
+    for k, l in enumerate(lists):
+        if k >= len(_SHARED):
+            _SHARED.append([])
+        _SHARED[k][:] = l
+    lists = _SHARED[:len(lists)]
     if mode == 'ol':
         return H.operation_list_hash(lists[0])
     if mode == 'oll':
